@@ -347,10 +347,12 @@ func (c *Client) Subscribe(topic string, fn EventHandler, options wamp.Dict) err
 	}
 	id := c.sess.IDGen.Next()
 	c.expectReply(id)
-	c.sess.Send() <- &wamp.Subscribe{
+	if err := c.sendRequest(id, &wamp.Subscribe{
 		Request: id,
 		Options: options,
 		Topic:   wamp.URI(topic),
+	}); err != nil {
+		return err
 	}
 
 	// Wait to receive SUBSCRIBED message.
@@ -418,9 +420,11 @@ func (c *Client) Unsubscribe(topic string) error {
 
 	id := c.sess.IDGen.Next()
 	c.expectReply(id)
-	c.sess.Send() <- &wamp.Unsubscribe{
+	if err := c.sendRequest(id, &wamp.Unsubscribe{
 		Request:      id,
 		Subscription: subID,
+	}); err != nil {
+		return err
 	}
 
 	// Wait to receive UNSUBSCRIBED message.
@@ -542,7 +546,9 @@ func (c *Client) Publish(topic string, options wamp.Dict, args wamp.List, kwargs
 		message.ArgumentsKw = kwargs
 	}
 
-	c.sess.Send() <- message
+	if err := c.send(message); err != nil {
+		return err
+	}
 
 	if !pubAck {
 		return nil
@@ -606,10 +612,12 @@ func (c *Client) Register(procedure string, fn InvocationHandler, options wamp.D
 	if options == nil {
 		options = wamp.Dict{}
 	}
-	c.sess.Send() <- &wamp.Register{
+	if err := c.sendRequest(id, &wamp.Register{
 		Request:   id,
 		Options:   options,
 		Procedure: wamp.URI(procedure),
+	}); err != nil {
+		return err
 	}
 
 	// Wait to receive REGISTERED message.
@@ -669,9 +677,11 @@ func (c *Client) Unregister(procedure string) error {
 
 	id := c.sess.IDGen.Next()
 	c.expectReply(id)
-	c.sess.Send() <- &wamp.Unregister{
+	if err := c.sendRequest(id, &wamp.Unregister{
 		Request:      id,
 		Registration: procID,
+	}); err != nil {
+		return err
 	}
 
 	// Wait to receive UNREGISTERED message.
@@ -803,7 +813,8 @@ func (c *Client) Call(ctx context.Context, procedure string, options wamp.Dict, 
 		return nil, err
 	}
 
-	c.sess.Send() <- message
+	// If this fails, waitForReplyWithCancel returns ErrNotConn.
+	_ = c.send(message)
 
 	// Wait to receive RESULT message.
 	msg, err := c.waitForReplyWithCancel(ctx, id, procedure, progChan)
@@ -824,7 +835,7 @@ func (c *Client) Call(ctx context.Context, procedure string, options wamp.Dict, 
 		abortMsg, err := c.prepareCallResultMessage(msg)
 		if err != nil {
 			if abortMsg != nil {
-				c.sess.Send() <- abortMsg
+				_ = c.send(abortMsg)
 				c.sess.Close()
 			}
 
@@ -901,7 +912,8 @@ func (c *Client) CallProgressive(ctx context.Context, procedure string, sendProg
 		return nil, err
 	}
 
-	c.sess.Send() <- message
+	// If this fails, waitForReplyWithCancel returns ErrNotConn.
+	_ = c.send(message)
 
 	callInProgress, _ := options[wamp.OptProgress].(bool)
 
@@ -913,10 +925,10 @@ func (c *Client) CallProgressive(ctx context.Context, procedure string, sendProg
 				cliOptions, args, kwargs, err := sendProg(ctx)
 
 				if err != nil {
-					c.sess.Send() <- &wamp.Cancel{
+					_ = c.send(&wamp.Cancel{
 						Request: id,
 						Options: wamp.SetOption(nil, wamp.OptMode, wamp.CancelModeKillNoWait),
-					}
+					})
 					return
 				}
 
@@ -940,14 +952,16 @@ func (c *Client) CallProgressive(ctx context.Context, procedure string, sendProg
 				}
 
 				if err := c.prepareCallPayloadMessage(message, options, args, kwargs); err != nil {
-					c.sess.Send() <- &wamp.Cancel{
+					_ = c.send(&wamp.Cancel{
 						Request: id,
 						Options: wamp.SetOption(nil, wamp.OptMode, wamp.CancelModeKillNoWait),
-					}
+					})
 					return
 				}
 
-				c.sess.Send() <- message
+				if c.send(message) != nil {
+					return
+				}
 			}
 		}()
 	}
@@ -971,7 +985,7 @@ func (c *Client) CallProgressive(ctx context.Context, procedure string, sendProg
 		abortMsg, err := c.prepareCallResultMessage(msg)
 		if err != nil {
 			if abortMsg != nil {
-				c.sess.Send() <- abortMsg
+				_ = c.send(abortMsg)
 				c.sess.Close()
 			}
 
@@ -1322,6 +1336,40 @@ type replyWaiter struct {
 	gone chan struct{}
 }
 
+// send hands a message to the transport on behalf of an API call. Once the
+// connection has ended the transport no longer takes messages, so this gives
+// up when the client has shut down instead of blocking for ever.
+func (c *Client) send(msg wamp.Message) error {
+	select {
+	case c.sess.Send() <- msg:
+		return nil
+	case <-c.Done():
+		return ErrNotConn
+	}
+}
+
+// sendRequest sends a request for which expectReply(id) was called.
+func (c *Client) sendRequest(id wamp.ID, msg wamp.Message) error {
+	err := c.send(msg)
+	if err != nil {
+		c.sess.Lock()
+		delete(c.awaitingReply, id)
+		c.sess.Unlock()
+	}
+	return err
+}
+
+// runSend sends a message from the run() goroutine. It is run() that notices
+// the end of the connection, so it must not itself block on a transport that
+// has stopped taking messages.
+func (c *Client) runSend(msg wamp.Message) {
+	select {
+	case c.sess.Send() <- msg:
+	default:
+		go c.send(msg) //nolint:errcheck
+	}
+}
+
 func (c *Client) expectReply(id wamp.ID) {
 	wait := replyWaiter{
 		msgs: make(chan wamp.Message),
@@ -1415,9 +1463,11 @@ CollectResults:
 			c.log.Printf("Call to %q canceled by caller (mode=%s): %s",
 				procedure, c.cancelMode, err)
 		}
-		c.sess.Send() <- &wamp.Cancel{
+		if c.send(&wamp.Cancel{
 			Request: id,
 			Options: wamp.SetOption(nil, wamp.OptMode, c.cancelMode),
+		}) != nil {
+			break
 		}
 		// Wait for the ERROR from the dealer.
 		timer := time.NewTimer(c.responseTimeout)
@@ -1625,13 +1675,13 @@ func (c *Client) runHandleInvocation(msg *wamp.Invocation) {
 		// as ErrNoSuchProcedure, since the dealer has a procedure registered.
 		// It is reported as ErrInvalidArgument to denote that the client has a
 		// problem with the registration ID argument.
-		c.sess.Send() <- &wamp.Error{
+		c.runSend(&wamp.Error{
 			Type:      wamp.INVOCATION,
 			Request:   reqID,
 			Details:   wamp.Dict{},
 			Error:     wamp.ErrInvalidArgument,
 			Arguments: wamp.List{errMsg},
-		}
+		})
 		c.log.Print(errMsg)
 		return
 	}
@@ -1641,13 +1691,13 @@ func (c *Client) runHandleInvocation(msg *wamp.Invocation) {
 	if pptScheme, _ := msg.Details[wamp.OptPPTScheme].(string); pptScheme != "" {
 		if !isPPTSchemeValid(pptScheme) {
 			c.sess.Unlock()
-			c.sess.Send() <- &wamp.Error{
+			c.runSend(&wamp.Error{
 				Type:      wamp.INVOCATION,
 				Request:   reqID,
 				Details:   wamp.Dict{},
 				Error:     wamp.ErrInvalidArgument,
 				Arguments: wamp.List{ErrPPTSchemeInvalid.Error()},
-			}
+			})
 			c.log.Printf("cannot process invocation with invalid ppt schema %q: %v", pptScheme, ErrPPTSchemeInvalid)
 			return
 		}
@@ -1666,13 +1716,13 @@ func (c *Client) runHandleInvocation(msg *wamp.Invocation) {
 
 		if err != nil {
 			c.sess.Unlock()
-			c.sess.Send() <- &wamp.Error{
+			c.runSend(&wamp.Error{
 				Type:      wamp.INVOCATION,
 				Request:   reqID,
 				Details:   wamp.Dict{},
 				Error:     wamp.ErrInvalidArgument,
 				Arguments: wamp.List{err.Error()},
-			}
+			})
 			c.log.Printf("cannot unpack invocation message: %v", err)
 			return
 		}
@@ -1888,7 +1938,7 @@ func (c *Client) runHandleInvocation(msg *wamp.Invocation) {
 							wamp.OptMessage: ErrPPTNotSupportedByPeer.Error(),
 						},
 					}
-					c.sess.Send() <- &abortMsg
+					_ = c.send(&abortMsg)
 					c.sess.Close()
 					return
 				}
